@@ -105,12 +105,12 @@ class Image:
     def lookup_dynamic(self, name):
         """Defined dynamic symbol `name` via the image's own hash table(s), or None."""
         dd = self.elf.dynamic_dict()
-        s = None
+        i = None
         if elfread.DT_GNU_HASH in dd:
-            s = self.elf.gnu_lookup(name)
+            i = self.elf.gnu_lookup(name)
         elif elfread.DT_HASH in dd:
-            s = self.elf.sysv_lookup(name)
-        return s
+            i = self.elf.sysv_lookup(name)
+        return None if i is None else self.elf.symbols(".dynsym")[i]
 
 
 class Process:
